@@ -9,6 +9,8 @@ rsync -a --exclude .git /repo/ "$D/repo/"
 cp -r /root/go/pkg/mod/github.com/xtaci/kcp-go/v5@v5.6.1 "$D/kcp-go"; chmod -R u+w "$D/kcp-go"
 sed -i 's/if now.After(task.ts) {/if !now.Before(task.ts) {/; s/if now.After(tasks\[0\].ts) {/if !now.Before(tasks[0].ts) {/' "$D/kcp-go/timedsched.go"
 test "$(grep -c '!now.Before' "$D/kcp-go/timedsched.go")" = 2
+cp -r /root/go/pkg/mod/github.com/xtaci/smux@v1.5.14 "$D/smux"; chmod -R u+w "$D/smux"
+python3 /verif/patch_smux.py "$D/smux/session.go"
 rsync -a --exclude '*.test' /verif/harness/ "$D/harness/"
 cp /repo/go.sum "$D/harness/go.sum"
 cd "$D/harness" && go1.26.8 test -c -trimpath -o worker .
